@@ -3,7 +3,7 @@ from vf import direct, e2e, gen, hooks, pipeline
 from vf.core import Shard, rng_for
 
 PROPERTY = 'C15'
-KF = ('resolver-uncompared-neighbours', 'resolver-offset-label-lists')
+KF = ('resolver-uncompared-neighbours',)
 RULE = ('the real Aligner is driven with hostile seed lists (ladders of 1-8 peaks with steps 200-5000 bp around the true '
         'diagonal of stretched molecules, random peaks, near-duplicates) on real-looking label data with indels and '
         'tandem repeats, both strands, -d 300..3000, -ms/-bs/-sj/-ss varied, plus end-to-end runs (incl. long molecules '
